@@ -12,8 +12,9 @@ Part F: the repaired variant is linearizable w.r.t. `Reg` under ALL interleaving
         programs, any schedule, atomic-action granularity), for histories that respect the handle discipline of
         the real API (`conc_linearizable`; forward simulation `action` / `conc_step_sim` with one linearization
         action per operation); witnesses that the discipline and the repairs are needed
-        (`stillborn_visible_witness`, `refused_record_witness`, `asis_not_linearizable_witness`), decided by a
-        complete search for linearizations (`linSearch_complete`, `not_linearizable_of_search`).
+        (`stillborn_visible_witness`, `refused_record_witness`, `reused_handle_witness`,
+        `asis_not_linearizable_witness`), decided by a complete search for linearizations (`linSearch_complete`,
+        `not_linearizable_of_search`); sanity of the definition for one sequential client (`linearizable_sequential`).
 -/
 import Wz.Proofs.C10_Refine
 import Wz.Gen.C10Sections
@@ -3161,5 +3162,125 @@ theorem conc_linearizable_example :
        .lin 0, .inv 1 (.closeModule 1 0), .lin 1, .ret 1 (.closeModule 1 0) .ok, .inv 1 (.lookup 1), .lin 1,
        .ret 1 (.lookup 1) .notFound, .ret 0 (.closeModule 1 0) .ok] := by
   refine ⟨by decide, by decide, conc_linearizable _ _ (by decide), by decide⟩
+
+/-- **Why fresh handles are needed**: two instantiate requests with the same handle and a runtime close. The
+first is refused by the closed store but leaves its record; the second then finds the handle taken and answers
+`bad`, which the registry (that has no record of the refused request) never does. -/
+theorem reused_handle_witness :
+    let hist := history Cfg.repaired
+      (Conc.start [[.instantiate 5 1 .none], [.instantiate 5 2 .none], [.closeRuntime 0]])
+      [0, 0, 1, 1, 2, 2, 2, 0, 0, 0, 0, 0, 1, 1]
+    hist = [.inv 0 (.instantiate 5 1 .none), .inv 1 (.instantiate 5 2 .none), .inv 2 (.closeRuntime 0),
+            .ret 2 (.closeRuntime 0) .ok, .ret 0 (.instantiate 5 1 .none) .errClosed,
+            .ret 1 (.instantiate 5 2 .none) .bad] ∧
+    ¬ Disciplined hist ∧ ¬ Linearizable hist := by
+  refine ⟨by decide, by decide, ?_⟩
+  exact not_linearizable_of_search _ (by decide)
+
+/-! ### sanity of the definition: for one sequential client, linearizable = what the registry returns -/
+
+/-- the history of a single client (thread 0) that calls the operations one after the other -/
+def seqHist : List (Op × Res) → List Ev
+  | [] => []
+  | (op, r) :: xs => .inv 0 op :: .ret 0 op r :: seqHist xs
+
+theorem run_snd_cons (r : Reg) (op : Op) (ops : List Op) :
+    (Reg.run r (op :: ops)).2 = (r.step op).2 :: (Reg.run (r.step op).1 ops).2 := rfl
+
+theorem filter_cons_obs (e : Ev) (l : List Ev) (h : e.isLin = false) :
+    (e :: l).filter (fun e => !e.isLin) = e :: l.filter (fun e => !e.isLin) := by
+  simp [h]
+
+theorem filter_cons_lin (t : Nat) (l : List Ev) :
+    (Ev.lin t :: l).filter (fun e => !e.isLin) = l.filter (fun e => !e.isLin) := by
+  rw [List.filter_cons]; rfl
+
+theorem lin_sequential_aux (l : List Ev) : ∀ (st : LinSt) (xs : List (Op × Res)),
+    (∀ u, u ≠ 0 → st.pend u = none) → (st.run l).isSome = true →
+    (st.pend 0 = none → l.filter (fun e => !e.isLin) = seqHist xs →
+      (Reg.run st.reg (xs.map (·.1))).2 = xs.map (·.2)) ∧
+    (∀ op r, st.pend 0 = some (op, none) → l.filter (fun e => !e.isLin) = .ret 0 op r :: seqHist xs →
+      (Reg.run st.reg (op :: xs.map (·.1))).2 = r :: xs.map (·.2)) ∧
+    (∀ op x r, st.pend 0 = some (op, some x) → l.filter (fun e => !e.isLin) = .ret 0 op r :: seqHist xs →
+      x = r ∧ (Reg.run st.reg (xs.map (·.1))).2 = xs.map (·.2)) := by
+  induction l with
+  | nil =>
+    intro st xs _ _
+    refine ⟨?_, ?_, ?_⟩
+    · intro _ hf
+      cases xs with
+      | nil => rfl
+      | cons a xs => obtain ⟨op, r⟩ := a; simp [seqHist] at hf
+    · intro op r _ hf; simp at hf
+    · intro op x r _ hf; simp at hf
+  | cons e l ih =>
+    intro st xs hoth hrun
+    simp only [LinSt.run] at hrun
+    cases hstep : st.step e with
+    | none => simp [hstep] at hrun
+    | some st1 =>
+      have hrun1 : (st1.run l).isSome = true := by simpa [hstep] using hrun
+      cases e with
+      | inv t op =>
+        rw [filter_cons_obs _ _ rfl]
+        refine ⟨?_, ?_, ?_⟩
+        · intro hp0 hf
+          cases xs with
+          | nil => simp [seqHist] at hf
+          | cons a xs =>
+            obtain ⟨op', r⟩ := a
+            simp only [seqHist, List.cons.injEq, Ev.inv.injEq] at hf
+            obtain ⟨⟨rfl, rfl⟩, hf⟩ := hf
+            simp only [LinSt.step, hp0, Option.some.injEq] at hstep
+            subst hstep
+            have := (ih _ xs (by intro u hu; simp [hu, hoth u hu]) hrun1).2.1 op r (by simp) hf
+            simpa using this
+        · intro op' r _ hf; simp at hf
+        · intro op' x r _ hf; simp at hf
+      | ret t op x =>
+        rw [filter_cons_obs _ _ rfl]
+        refine ⟨?_, ?_, ?_⟩
+        · intro _ hf
+          cases xs with
+          | nil => simp [seqHist] at hf
+          | cons a xs => obtain ⟨op', r⟩ := a; simp [seqHist] at hf
+        · intro op' r hp0 hf
+          simp only [List.cons.injEq, Ev.ret.injEq] at hf
+          obtain ⟨⟨rfl, rfl, rfl⟩, hf⟩ := hf
+          simp [LinSt.step, hp0] at hstep
+        · intro op' x' r hp0 hf
+          simp only [List.cons.injEq, Ev.ret.injEq] at hf
+          obtain ⟨⟨rfl, rfl, rfl⟩, hf⟩ := hf
+          simp only [LinSt.step, hp0] at hstep
+          split at hstep
+          · rename_i hc
+            simp only [Option.some.injEq] at hstep
+            subst hstep
+            refine ⟨hc.2, ?_⟩
+            exact (ih _ xs (by intro u hu; simp [hu, hoth u hu]) hrun1).1 (by simp) hf
+          · simp at hstep
+      | lin t =>
+        rw [filter_cons_lin]
+        by_cases ht : t = 0
+        · subst ht
+          refine ⟨?_, ?_, ?_⟩
+          · intro hp0 _; simp [LinSt.step, hp0] at hstep
+          · intro op r hp0 hf
+            simp only [LinSt.step, hp0, Option.some.injEq] at hstep
+            subst hstep
+            obtain ⟨e1, e2⟩ := (ih _ xs (by intro u hu; simp [hu, hoth u hu]) hrun1).2.2 op
+              (st.reg.step op).2 r (by simp) hf
+            rw [run_snd_cons, e1]
+            exact congrArg _ e2
+          · intro op x r hp0 _; simp [LinSt.step, hp0] at hstep
+        · simp [LinSt.step, hoth t ht] at hstep
+
+/-- **The definition is the right one for a sequential client**: the history of one thread calling operations
+one after the other is linearizable only if every operation returned exactly what the atomic registry
+returns. -/
+theorem linearizable_sequential (xs : List (Op × Res)) (h : Linearizable (seqHist xs)) :
+    (Reg.run Reg.init (xs.map (·.1))).2 = xs.map (·.2) := by
+  obtain ⟨l, hf, hrun⟩ := h
+  exact (lin_sequential_aux l LinSt.init xs (fun _ _ => rfl) hrun).1 rfl hf
 
 end Wz.C10
